@@ -232,6 +232,26 @@ def execute(case):
                 x_links = "consistent"
                 built = True
                 log.append((i, "build", label, type(obj).__name__))
+            elif k == "build_synth":
+                # a live module of the given type with a long name and a few edited slots, wrapped in a Synth
+                from rv.synth import Synth
+
+                builder.set_layout(case.get("layout", 2))
+                cls = builder.TYPES[op["t"] % len(builder.TYPES)]
+                m = cls()
+                m.name = builder.text_from(op.get("v", 0) | 40, 40) or "x" * 40
+                m.name = (m.name * 3)[:40]
+                slots = builder.module_slots(m, None, in_project=False, layout=case.get("layout", 2))
+                for j in range(op.get("n", 4)):
+                    try:
+                        slots[builder.mix(op.get("v", 0), j) % len(slots)][1](builder.mix(op.get("v", 0), j + 50))
+                    except Exception as e:
+                        if not env.raised_in_rv(e):
+                            raise
+                obj = Synth(m)
+                label = "built_synth:%s" % cls.__name__
+                built = True
+                log.append((i, "build_synth", label))
             elif obj is None:
                 continue
             elif k == "save":
@@ -442,6 +462,7 @@ def plan(tier, seed):
     # files as older versions of SunVox / of this library wrote them: legacy Sampler records
     legacy = [{"src": "fixture", "name": "sampler.sunsynth", "perturb": [["sampler_legacy", 0, v]]} for v in range(4)]
     units.append({"kind": "plain", "specs": legacy, "next": specs[0], "seed": seed, "tier": tier, "perturbed": True})
+    units.append({"kind": "built_synths", "seed": seed, "tier": tier})
     n = 5000 if tier == "quick" else 120000
     chunk = 100
     for i in range(0, n, chunk):
@@ -451,6 +472,15 @@ def plan(tier, seed):
 
 def run_unit(unit):
     acc = Acc()
+    if unit["kind"] == "built_synths":
+        reps = 1 if unit.get("tier") == "quick" else 12
+        for t in range(len(builder.TYPES)):
+            for rep in range(reps):
+                v = seeds.derive(unit["seed"], "bs", t, rep) >> 2
+                ops = [{"k": "build_synth", "t": t, "v": v, "n": 4}, {"k": "save"}, {"k": "cycle", "n": 2},
+                       {"k": "save_fault", "fault": {"kind": "write_eio", "at": v % 97}}, {"k": "save_fault", "fault": {"kind": "write_cancel", "at": v % 31}}]
+                acc.run(execute, {"property": PROPERTY, "world": "cycles", "layout": 2, "ops": ops})
+        return acc.to_dict()
     if unit["kind"] == "plain":
         for spec in unit["specs"]:
             ops = [{"k": "load", "file": spec}, {"k": "save", "perturbed": bool(unit.get("perturbed"))}, {"k": "cycle", "n": 3}]
